@@ -138,15 +138,23 @@ func checkMain(args []string) {
 			}
 		}
 	}
+	perKind := map[string]int{}
+	nviol := 0
 	for _, c := range g.cases {
 		co := make([]string, len(c.Lines))
 		for k, l := range c.Lines {
 			co[k] = outs[idx[l]]
 		}
 		if msg := c.Check(co); msg != "" {
-			if len(viols) < 200 {
+			key := c.Desc + "|" + msg
+			if len(key) > len(c.Desc)+25 {
+				key = key[:len(c.Desc)+25]
+			}
+			perKind[key]++
+			if perKind[key] <= 3 && len(viols) < 300 {
 				viols = append(viols, Violation{c.Prop, c.Desc, msg, c.Lines, co})
 			}
+			nviol++
 		}
 	}
 	os.MkdirAll(outdir, 0o755)
@@ -177,7 +185,7 @@ func checkMain(args []string) {
 	res := map[string]interface{}{
 		"property": prop, "tier": tier, "seed": seed, "cases": len(g.cases), "sessions": len(lines),
 		"corpus_sessions": len(corpus), "distinct_nontrivial": nontrivial, "distribution": g.dist,
-		"verdict_histogram": verd, "violations": viols, "samples": samples,
+		"verdict_histogram": verd, "violations": viols, "violations_total": nviol, "samples": samples,
 	}
 	js, _ := json.MarshalIndent(res, "", " ")
 	os.WriteFile(filepath.Join(outdir, "result.json"), js, 0o644)
